@@ -45,8 +45,12 @@ def gen_case(rng):
         ops.append(("SSetSR", s, SR * rng.choice([2, 0.5])))
     delays = {}
     zero_all = rng.random() < 0.12
+    big = rng.random() < 0.06 and not long and len(chans) >= 2           # delays of ~2.5e5 samples that differ by a few samples
+    big_base = rng.choice([250000, 400000])
     for c in chans:
         d = 0 if zero_all else delay_value(rng, SR)
+        if big:
+            d = float(Fraction(big_base + rng.choice([0, 2, 4, 7])) / Fraction(SR))
         redeclared = rng.random() < 0.3
         if redeclared:
             # a delay set earlier and then changed (possibly back to 0): only the last value counts
